@@ -141,7 +141,8 @@ FramesOf(m, B, Big) ==
               ELSE FlushFinal(WriteOne(st0, n, 4096, 8210, FALSE, FALSE))
          [] m.api = "writer"   -> FlushFinal(WriteAll(st0, m.chunks, B, Big, m.server, FALSE))
          [] m.api = "string"   -> FlushFinal(WriteAll(st0, m.chunks, B, Big, m.server, TRUE))
-         [] m.api = "readfrom" -> FlushFinal(ReadFromLoop(st0, m.chunks, B))
+         \* ("readfromeof": the reader returns its last data together with io.EOF, as the io.Reader contract allows)
+         [] m.api \in {"readfrom", "readfromeof"} -> FlushFinal(ReadFromLoop(st0, m.chunks, B))
 
 \* what the peer's reader makes of frames: every frame is a message; type-0 frames carry bit 7 = 1
 ReadBack(frames) == [i \in 1..Len(frames) |-> [bin |-> frames[i].ft # "text", len |-> frames[i].len]]
@@ -157,7 +158,7 @@ SplitHappened(m, B, Big) == Len(FramesOf(m, B, Big)) > 1
 (* cell enumeration for TLC: every initial state is one write script *)
 CONSTANTS Lens, Geoms, MaxChunks, Emit
 VARIABLE cell
-Apis == {"message", "writer", "string", "readfrom", "prepared"}
+Apis == {"message", "writer", "string", "readfrom", "readfromeof", "prepared"}
 ChunkLists == {<<a>> : a \in Lens} \cup (IF MaxChunks >= 2 THEN {<<a, b>> : a \in Lens, b \in Lens} ELSE {})
              \cup (IF MaxChunks >= 3 THEN {<<a, b, c>> : a \in Lens, b \in Lens, c \in Lens} ELSE {})
 Cells == {[bin |-> b, api |-> a, chunks |-> c, server |-> s, geom |-> g] :
